@@ -231,7 +231,7 @@ pub fn run(tier: &str, seed: u64) -> i32 {
     let paths = cyclic_paths(max_len);
     let depths: Vec<usize> = if thorough { vec![4, 8, 16, 32, 64, 128, 256] } else { vec![4, 8, 16, 32, 64] };
     let widths = [0usize, 20, 40, 80, 120];
-    let wall_cap = Duration::from_secs(std::env::var("VERIF_WALL_CAP_S").ok().and_then(|s| s.parse().ok()).unwrap_or(if thorough { 20 * 60 } else { 300 }));
+    let wall_cap = Duration::from_secs(std::env::var("VERIF_WALL_CAP_S").ok().and_then(|s| s.parse().ok()).unwrap_or(if thorough { 12 * 60 } else { 300 }));
     let threads = std::thread::available_parallelism().map(|n| n.get()).unwrap_or(8);
 
     let next = AtomicUsize::new(0);
